@@ -1,7 +1,8 @@
-import Mutagen.Driver.Util
+import Mutagen.Driver.TransFS
 namespace Mutagen.Driver.C09
 
-/-- Model-side handler for one line of the C09 correspondence stream. -/
-def handle (_line : String) : String := "unimplemented"
+/-- Model-side handler for one line of the C09 correspondence stream: a
+transition scenario (see `Mutagen.Driver.TransFS`). -/
+def handle (line : String) : String := Mutagen.Driver.TransFS.handle line
 
 end Mutagen.Driver.C09
